@@ -188,9 +188,20 @@ def suite_version_pairs():
         if not info.tls13 and info.setting_kex() is None:
             continue
         for v in VERSIONS:
-            if ianasuite.defined_in(info, v):
+            if ianasuite.defined_in(info, v) and library_offers(v, sid):
                 out.append((v, sid))
     return out
+
+
+def library_offers(version, sid):
+    """Domain of 'negotiable': does a client restricted (by IANA reading)
+    to this suite put it into its ClientHello for that version?"""
+    st = restrict_to_suite(base_settings(version), ALL_INFOS[sid])
+    try:
+        st = st.validate()
+    except ValueError:
+        return False
+    return bool(CipherSuite._filterSuites([sid], st, version))
 
 
 def scen_for_suite(version, sid, etm=True, **kw):
